@@ -7,7 +7,7 @@ git -C $WT apply $P || { echo "patch does not apply"; exit 2; }
 (cd $WT && PYTHONPATH=$WT timeout 1500 /venv/bin/python -m pytest -q -p no:cacheprovider --timeout=900 --deselect tests/clingo_test.py::test_clingo 2>&1 | tail -1) > $OUT
 for c in C01 C02 C03 C04 C05 C06 C07 C08 C09 C10 C11 C12 C13 C14 C15 C16 C17 C18 C19 C20; do
   W=/verif/work/benign_${NAME}_$c; rm -rf $W
-  (cd /verif && VERIF_REPO=$WT VERIF_WORK=$W ./check $c --tier quick 2>&1 | grep -E "^\[C|^VIOLATION|^MACHINERY|^MODEL-DEV" | head -6) >> $OUT
+  (cd /verif && VERIF_REPO=$WT VERIF_WORK=$W ./check $c --tier quick 2>&1 | grep -E "^\[C|^VIOLATION|^MACHINERY|^MODEL-DEV|^KNOWN" | awk '/^MODEL-DEV/{d++; if(d>3) next} /^VIOLATION/{v++; if(v>5) next} {print}') >> $OUT
   rm -rf $W
 done
 git -C /repo worktree remove --force $WT
